@@ -7,6 +7,11 @@ import CogentModel.Proofs.PhyloOps
 import CogentModel.Proofs.PhyloRF
 import CogentModel.Proofs.PhyloNewick
 import CogentModel.Proofs.PhyloSubtree
+import CogentModel.Proofs.PhyloDist
+import CogentModel.Proofs.PhyloPhi
+import CogentModel.Proofs.PhyloHistory
+import CogentModel.Proofs.PhyloMidpoint
+import CogentModel.Proofs.PhyloMidSearch
 /-! # C09 — property theorems (tree transformations preserve tips, topology and path lengths)
 
 `PTree K`, `rerootAt`, `unrooted`, `sorted`, `getSubTree`, … : `Model/PhyloTree.lean`
@@ -291,5 +296,202 @@ example : rootedRF (K := Int)
     (.node "" none [.node "" none [.node "a" none [], .node "b" none []], .node "" none [.node "c" none [], .node "d" none []]])
     (.node "" none [.node "" none [.node "a" none [], .node "c" none []], .node "" none [.node "b" none [], .node "d" none []]])
     = .ok 4 := by decide +kernel
+
+
+/-! ## Stretch goals (round 3)
+
+### 1. the distance function the code runs
+
+`getDistances d t` mirrors `PhyloNode._get_distances` (post-order accumulation of root-ward tip
+distances, cross products between the children of every node, a dict in which the last write
+wins); `lookupLast (a, b)` is `tree.get_distances()[(a, b)]`. -/
+
+/-- What `get_distances()` reports for two distinct tips is the specification path length — for
+every tree with distinct tip names (any shape, missing lengths counted as `d`). Hence every
+`distSpec` theorem of this file is a theorem about the modelled code's own distance function. -/
+theorem getDistances_eq_distSpec [AddCommMonoid K] (d : K) (t : PTree K) (hnd : (tips t).Nodup)
+    (a b : String) (ha : a ∈ tips t) (hb : b ∈ tips t) (hab : a ≠ b) :
+    lookupLast (a, b) (getDistances d t) = some (distSpec d a b t) :=
+  getDistances_lookup d t hnd a b ha hb hab
+
+/-- … and the dict has no entries other than pairs of tips with that value. -/
+theorem getDistances_entries [AddCommMonoid K] (d : K) (t : PTree K) (hnd : (tips t).Nodup)
+    (a b : String) (v : K) (h : ((a, b), v) ∈ getDistances d t) :
+    a ∈ tips t ∧ b ∈ tips t ∧ v = distSpec d a b t :=
+  getDistances_keys d t hnd a b v h
+
+example : lookupLast ("a", "c") (getDistances (1 : Int)
+    (.node "" none [.node "" (some 3) [.node "a" (some 1) [], .node "b" (some 2) []],
+                    .node "" (some 6) [.node "c" (some 4) [], .node "d" none []]])) = some 14 := by decide +kernel
+
+/-! ### 2. topology of `unrooted` and `get_sub_tree`
+
+`topoWeight d φ t` = total length of the edges of `t` whose bipartition satisfies the
+bipartition predicate `φ` (`Spec/PhyloSplits.lean`: `BipPred T φ` — `φ` cannot tell a side from
+one with the same members of `T` nor from its complement in `T`, and rejects the trivial
+bipartition).  With `φ = sepAll T A` (`A` a proper part of `T`) it is the weight of the
+bipartition `A | T∖A`, *merged* over all edges carrying it (0 when there is none); with
+`φ = sep a b` it is the path length.  "Same weighted unrooted topology among `T`" = all these
+agree. -/
+
+/-- `unrooted` keeps the weighted unrooted topology: the edge above the collapsed node and the
+sister edge carry the same bipartition and their weights are merged; nothing else changes. -/
+theorem unrooted_preserves_splits [AddCommMonoid K] (d : K) (t : PTree K) (hnd : (tips t).Nodup)
+    (hlen : ∀ c ∈ t.children, ∃ l, c.len = some l) (φ : List String → Bool) (hφ : BipPred (tips t) φ) :
+    topoWeight d φ (unrooted t) = topoWeight d φ t :=
+  unrooted_phi d t hnd hlen φ hφ
+
+/-- the weight of every proper bipartition `A | T∖A` is the same before and after `unrooted` -/
+theorem unrooted_preserves_bipartition_weights [AddCommMonoid K] (d : K) (t : PTree K) (hnd : (tips t).Nodup)
+    (hlen : ∀ c ∈ t.children, ∃ l, c.len = some l) (A : List String) (hA : Proper (tips t) A) :
+    topoWeight d (sepAll (tips t) A) (unrooted t) = topoWeight d (sepAll (tips t) A) t :=
+  unrooted_phi d t hnd hlen _ (bipPred_sepAll _ A hA)
+
+example :
+    let t : PTree Int := .node "" none [.node "" (some 3) [.node "a" (some 1) [], .node "b" (some 2) []],
+                                         .node "" (some 6) [.node "c" (some 4) [], .node "d" (some 5) []]]
+    topoWeight 1 (sepAll (tips t) ["a", "b"]) t = 9 ∧ topoWeight 1 (sepAll (tips t) ["a", "b"]) (unrooted t) = 9 ∧
+      topoWeight 1 (sepAll (tips t) ["a", "c"]) t = 0 := by decide +kernel
+
+/-- `get_sub_tree(names, tipsonly=True)`: the bipartitions of the result are the restrictions of
+the source bipartitions to the kept tips, with the weights of merged edges added and the
+trivial ones dropped: every bipartition functional over the kept tips has the same value on the
+result and on the source (a predicate on the kept tips sees only the restriction of a side).
+The result's edges still have lengths in `P`. -/
+theorem subtree_restricts_splits [AddCommMonoid K] [DecidableEq K] (P : K → Prop)
+    (hadd : ∀ x y, P x → P y → P (x + y)) (h0 : ¬ P 0) (d : K)
+    (t : PTree K) (names : List String) (ignoreMissing keepRoot : Bool) (r : PTree K)
+    (h : getSubTree t names ignoreMissing keepRoot true = .ok r)
+    (hg : GoodLensL P t.children) (hnd : (tips t).Nodup) :
+    tips r = (tips t).filter (fun x => names.contains x) ∧ GoodLensL P r.children ∧
+      ∀ φ, BipPred (tips r) φ → topoWeight d φ r = topoWeight d φ t :=
+  getSubTree_phi P hadd h0 d t names ignoreMissing keepRoot r h hg hnd
+
+example :
+    let t : PTree Int := .node "" none [.node "x" (some 3) [.node "a" (some 1) [], .node "y" (some 7) [.node "b" (some 2) [], .node "e" (some 1) []]],
+                                         .node "c" (some 4) [], .node "d" (some 5) []]
+    -- keeping a, b, c, d: the edges x (3) | y (7) survive; bipartition ab|cd has weight 3 in both, b|acd = 2 + 7 merged
+    (getSubTree t ["a", "b", "c", "d"] false false true).toOption.map (topoWeight 1 (sepAll ["a", "b", "c", "d"] ["a", "b"])) = some 3 ∧
+    topoWeight 1 (sepAll ["a", "b", "c", "d"] ["a", "b"]) t = 3 ∧
+    (getSubTree t ["a", "b", "c", "d"] false false true).toOption.map (topoWeight 1 (sepAll ["a", "b", "c", "d"] ["b"])) = some 9 ∧
+    topoWeight 1 (sepAll ["a", "b", "c", "d"] ["b"]) t = 9 := by decide +kernel
+
+/-! ### 3. one induction over ALL the transformations
+
+`XOp` (`Model/PhyloHistory.lean`): reroot | sorted | copy | unrooted | subtree names … | newick
+(print with distances → parse, token level).  `applyXs` runs a history and is defined while every
+intermediate root has ≥ 2 children; `keptAll ops` is the conjunction of the name lists of its
+pruning steps. -/
+
+/-- Arbitrary compositions of every transformation the property lists: the final tips are the
+original tips filtered by all pruning steps (up to order), all edges still have lengths in `P`,
+and the weighted unrooted topology among the retained tips is unchanged. -/
+theorem full_history_preserves [AddCommMonoid K] [DecidableEq K] (P : K → Prop)
+    (hadd : ∀ x y, P x → P y → P (x + y)) (h0 : ¬ P 0) (d : K)
+    (ops : List XOp) (t r : PTree K) (h : applyXs t ops = some r) (hdeg : 2 ≤ t.children.length)
+    (hnd : (tips t).Nodup) (hg : GoodLensL P t.children) :
+    (tips r).Perm ((tips t).filter (keptAll ops)) ∧ GoodLensL P r.children ∧
+      ∀ φ, BipPred (tips r) φ → topoWeight d φ r = topoWeight d φ t :=
+  let s := applyXs_ok P hadd h0 d ops t r h hdeg hnd hg
+  ⟨s.tips, s.good, s.topo⟩
+
+/-- … in particular every tip-to-tip path length among retained tips, as reported by the modelled
+`get_distances()` on the final and on the original tree. -/
+theorem full_history_preserves_get_distances [AddCommMonoid K] [DecidableEq K] (P : K → Prop)
+    (hadd : ∀ x y, P x → P y → P (x + y)) (h0 : ¬ P 0) (d : K)
+    (ops : List XOp) (t r : PTree K) (h : applyXs t ops = some r) (hdeg : 2 ≤ t.children.length)
+    (hnd : (tips t).Nodup) (hg : GoodLensL P t.children)
+    (a b : String) (ha : a ∈ tips r) (hb : b ∈ tips r) (hab : a ≠ b) :
+    lookupLast (a, b) (getDistances d r) = lookupLast (a, b) (getDistances d t) ∧
+      distSpec d a b r = distSpec d a b t := by
+  have s := applyXs_ok P hadd h0 d ops t r h hdeg hnd hg
+  have hndr : (tips r).Nodup := (s.tips.nodup_iff).2 (hnd.filter _)
+  have sub : ∀ x ∈ tips r, x ∈ tips t := fun x hx => (List.mem_filter.1 ((s.tips.mem_iff).1 hx)).1
+  have hd : distSpec d a b r = distSpec d a b t := s.topo (sep a b) (bipPred_sep _ a b ha hb)
+  refine ⟨?_, hd⟩
+  rw [getDistances_lookup d r hndr a b ha hb hab, getDistances_lookup d t hnd a b (sub a ha) (sub b hb) hab, hd]
+
+example : (applyXs (K := Int)
+    (.node "" none [.node "x" (some 3) [.node "a" (some 1) [], .node "y" (some 7) [.node "b" (some 2) [], .node "e" (some 1) []]],
+                    .node "c" (some 4) [], .node "d" (some 5) []])
+    [.reroot [0, 1], .newick, .subtree ["a", "b", "c", "e"] false false, .unrooted, .sorted [], .copy]).map tips
+    = some ["a", "c", "b", "e"] := by decide +kernel
+
+
+/-! ### 4. midpoint rooting (`root_at_midpoint`, model `rootAtMidpoint` at `Rat`)
+
+`midPlan` is the search (farthest pair, deeper tip, climb until half the distance is covered);
+`execPlan` either re-roots at an existing node or first splits the edge at the midpoint
+(`splitEdge`: a new unnamed node with the climbed node as its only child, lengths `x - y` and `y`)
+and re-roots at the new node. -/
+
+/-- Midpoint rooting keeps the tips and the weighted unrooted topology — the two halves of a split
+edge carry the same bipartition and their weights add up to the old length — hence every
+tip-to-tip path length, also as reported by the modelled `get_distances()`. -/
+theorem midpoint_preserves (t r : RT) (h : rootAtMidpoint t = .ok r)
+    (hdeg : 2 ≤ t.children.length) (hnd : (tips t).Nodup) :
+    (tips r).Perm (tips t) ∧ (∀ φ, BipPred (tips t) φ → topoWeight 1 φ r = topoWeight 1 φ t) ∧
+      ∀ a b, a ∈ tips t → b ∈ tips t → a ≠ b →
+        distSpec 1 a b r = distSpec 1 a b t ∧
+        lookupLast (a, b) (getDistances 1 r) = lookupLast (a, b) (getDistances 1 t) := by
+  obtain ⟨hp, hφ⟩ := rootAtMidpoint_ok 1 t r h hdeg hnd
+  refine ⟨hp, hφ, fun a b ha hb hab => ?_⟩
+  have hd : distSpec 1 a b r = distSpec 1 a b t := hφ (sep a b) (bipPred_sep _ a b ha hb)
+  refine ⟨hd, ?_⟩
+  rw [getDistances_lookup 1 r ((hp.nodup_iff).2 hnd) a b ((hp.mem_iff).2 ha) ((hp.mem_iff).2 hb) hab,
+    getDistances_lookup 1 t hnd a b ha hb hab, hd]
+
+/-- Re-rooting at any node `w`: a tip `p` below child `v` of `w` ends up at depth `len v + depth of
+p in v`, and for every tip `q` not below `v` the path length is the sum of the two depths.
+(`depthR a t` = root-to-tip distance of `a` in `t`.) -/
+theorem reroot_depths_spec (t r w : RT) (pp : List Nat) (idx : Nat) (pre post : List RT) (v : RT)
+    (hdeg : 2 ≤ t.children.length) (hnd : (tips t).Nodup)
+    (hr : rerootAt t pp = some r) (hw : nodeAt t pp = some w) (hv : pick w.children idx = some (pre, v, post))
+    (p q : String) (hp : p ∈ tips v) (hq : q ∈ tips t) (hqv : q ∉ tips v) :
+    depthR p r = lenOr 1 v.len + depthR p v ∧ distSpec 1 p q t = depthR p r + depthR q r :=
+  reroot_depths t r w pp idx pre post v hdeg hnd hr hw hv p q hp hq hqv
+
+/-- `root_at_midpoint`: the two tips of the farthest pair (`max_tip_tip_distance`: first maximum of
+the tip-by-tip matrix) end up equidistant from the new root, at half their path length — for every
+tree with ≥ 2 root children, distinct tip names none of which is also the name of an internal node
+(`get_node_matching_name` takes the first node with the name), and positive branch lengths.
+Proved through the search itself: `findPath` soundness, the frames of the climb (`climb_node`,
+`climb_node.parent`), "the climb stops strictly below the last common ancestor", and the two
+execution lemmas below. -/
+theorem midpoint_equidistant (t r : RT) (h : rootAtMidpoint t = .ok r)
+    (hdeg : 2 ≤ t.children.length) (hnd : (tips t).Nodup)
+    (hint : ∀ n ∈ tips t, n ∉ internalNames t)
+    (hg : GoodLensL (fun x : Rat => 0 < x) t.children)
+    (m : Rat) (a b : String) (harg : argmaxPair (tips t) (getDistances 1 t) = (m, a, b)) (hm : m ≠ 0) :
+    m = distSpec 1 a b t ∧ depthR a r = m / 2 ∧ depthR b r = m / 2 :=
+  rootAtMidpoint_equidistant t r h hdeg hnd hint hg m a b harg hm
+
+/-- the plan "re-root at the existing node at `pp`" -/
+theorem midpoint_equidistant_at (t r w : RT) (pp : List Nat) (idx : Nat) (pre post : List RT) (v : RT)
+    (hdeg : 2 ≤ t.children.length) (hnd : (tips t).Nodup)
+    (h : execPlan t (.at pp) = .ok r) (hw : nodeAt t pp = some w)
+    (hv : pick w.children idx = some (pre, v, post))
+    (p q : String) (hp : p ∈ tips v) (hq : q ∈ tips t) (hqv : q ∉ tips v)
+    (hhalf : lenOr 1 v.len + depthR p v = distSpec 1 p q t / 2) :
+    depthR p r = distSpec 1 p q t / 2 ∧ depthR q r = distSpec 1 p q t / 2 :=
+  equidistant_at t r w pp idx pre post v hdeg hnd h hw hv p q hp hq hqv hhalf
+
+/-- the plan "split the edge above child `v` of the node at `pp`, leaving `y` below the new root" -/
+theorem midpoint_equidistant_split (t r par : RT) (pp : List Nat) (idx : Nat) (y : Rat)
+    (pre post : List RT) (v : RT) (hdeg : 2 ≤ t.children.length) (hnd : (tips t).Nodup)
+    (h : execPlan t (.split pp idx y) = .ok r) (hpar : nodeAt t pp = some par)
+    (hv : pick par.children idx = some (pre, v, post))
+    (p q : String) (hp : p ∈ tips v) (hq : q ∈ tips t) (hqv : q ∉ tips v)
+    (hhalf : y + depthR p v = distSpec 1 p q t / 2) :
+    depthR p r = distSpec 1 p q t / 2 ∧ depthR q r = distSpec 1 p q t / 2 :=
+  equidistant_split t r par pp idx y pre post v hdeg hnd h hpar hv p q hp hq hqv hhalf
+
+example :
+    let t : RT := .node "" none [.node "a" (some 1) [], .node "b" (some 2) [], .node "x" (some 1) [.node "c" (some 6) [], .node "d" (some 1) []]]
+    -- farthest pair (b, c): 2 + 1 + 6 = 9; the midpoint lies on c's edge, 4.5 from c
+    midPlan t = .ok (.split [2] 0 (9 / 2)) ∧ argmaxPair (tips t) (getDistances 1 t) = (9, "b", "c") ∧
+    (rootAtMidpoint t).toOption.map (fun r => (depthR "b" r, depthR "c" r)) = some (9 / 2, 9 / 2) ∧
+    internalNames t = ["", "x"] := by
+  decide +kernel
 
 end CogentModel.C09
